@@ -8,12 +8,18 @@ ID = 'C08'
 PROPS_V = 'C08/Props.v'
 LEVEL = 'proof'
 TRUSTED = [
-    'translate/c08.py: ast extraction of the index / comparison / constant arithmetic of bspline.py (77 expressions of '
-    '__init__, intrv, bsplvn, action, value, fit, maskpoints, cholesky_band, iterfit) into coq/Generated/BSpline.v; '
-    'BSpline/GenBridge.v + the Cxx_generated_* obligations prove that the hand-written reference models are built from exactly these',
+    'translate/c08.py: ast extraction of the index / comparison / constant arithmetic of bspline.py (87 expressions of '
+    '__init__, intrv, bsplvn, action, value incl. the masked-breakpoint gap logic, fit, maskpoints, cholesky_band, iterfit incl. its '
+    'guards: too-few-points early return, status -2 abort, give-up test, when djs_reject runs) and of the neighbour comparison of '
+    'pydl/uniq.py into coq/Generated/BSpline.v; BSpline/GenBridge.v + the Cxx_generated_* obligations prove that the hand-written '
+    'reference models are built from exactly these',
     'hand-written models coq/BSpline/Eval.v (knots_of_option, intrv, bsplvn, action_ranges, value) -- tied to '
     'bspline.__init__/intrv/bsplvn/action/value by the correspondence run only (no translator)',
     'numpy argsort / fancy indexing (the sorting permutation is observed and passed to the model)',
+    'long splines (> 100000 intervals): harness/impl/c08_impl.py extracts, per evaluation point, the window of 2k knots and k '
+    'coefficients around the interval it locates with numpy.searchsorted on the object\'s own knots; Coq checks that the window '
+    'brackets the point (t_l < x <= t_{l+1}) and judges value / basis / mask / interval / action ranges on the window '
+    '(C08_value_is_local: the spline value depends on the window only); the extraction itself is trusted glue',
     'float32/float64 arithmetic of numpy agrees with exact rational arithmetic to the stated tolerances '
     '(2^-20 relative for knot placement, 1e-9 relative for values) on the generated inputs',
     'Coq stdlib QArith, Lqa (theorems closed under the global context)',
@@ -179,6 +185,36 @@ def gen_call(rng, idx):
     return call
 
 
+def gen_long(rng, idx):
+    """Splines with more than 100000 intervals (explicit breakpoints: equally spaced with long or short mantissas, or with
+    jittered spacing), evaluated at clusters of points in CONSECUTIVE intervals in every magnitude class of the interval
+    index (hundreds ... > 10^5, around 2^16 and 2^17, the first and the last intervals), 2-3 points per interval, shuffled."""
+    # (order, spacing): long-mantissa knots (linspace) make the exact Cox-de Boor recursion expensive for high orders
+    k, spacing = [(4, 'dyadic'), (2, 'linspace'), (3, 'jitter'), (1, 'linspace'), (5, 'jitter'), (6, 'dyadic'), (3, 'linspace'),
+                  (2, 'jitter'), (4, 'linspace')][idx % 9]
+    N = rng.choice([100040, 120011, 131080, 150000]) + rng.randint(0, 60)
+    nint = N - 1
+    starts = [0, nint - rng.randint(9, 14), rng.randrange(100, 1000), rng.randrange(1000, 10000), rng.randrange(10000, 65000),
+              65536 - rng.randint(2, 6), rng.randrange(66000, 99000), min(nint - 30, 131072 - rng.randint(2, 6))]
+    starts += [rng.randrange(100000, nint - 20) for _ in range(3)] + [rng.randrange(99990, 99999)]
+    clusters = [[s0, rng.randint(5, 9)] for s0 in sorted(set(starts))]
+    clusters = [[s0, min(cnt, nint - s0)] for s0, cnt in clusters]
+    fracs = [rng.choice([0.125, 0.25, 0.375]), rng.choice([0.5, 0.8125, 0.9375])] + ([1.0] if idx % 2 == 0 else [])
+    if k >= 4 and spacing == 'linspace':
+        clusters = clusters[::2]
+    return {'long': True, 'nord': k, 'nbk': N, 'spacing': spacing, 'log2step': rng.choice([8, 10, 12]),
+            'seed': rng.randrange(1 << 30), 'clusters': clusters, 'fracs': fracs, 'sorted': idx % 4 == 3}
+
+
+def long_term(c, r):
+    pts = ['(mkWpt %s %d%%Z %s %s %s %s %d%%Z %s)' % (
+        C.qlit(p['x']), p['l'], ql(p['knots']), ql(p['coeff']), C.qlit(p['y']), C.boollit(p['mask']), p['indx'], ql(p['row']))
+        for p in r['points']]
+    rg = ['(%d%%Z, (%s%%Z, %s%%Z))' % (s_, C.zlit(lo), C.zlit(hi)) for s_, lo, hi in r['ranges']]
+    return '(CWin %d%%nat %s %s %s %d%%nat %s)' % (c['nord'], C.coq_list(pts), zl(r['indx_all']), C.coq_list(rg), r['nonempty'],
+                                                 bl(r['outside_masks']))
+
+
 def hist_term(c, r):
     h = r['hist']
     ob = '(mkObsv %s %s %s %s %s %s %s %s %s)' % (
@@ -213,6 +249,62 @@ def correspond(ctx, proof_ok=True):
     dist = {}
     npoints = 0
     seen = set()
+    # ---- long splines (> 100000 intervals): behaviour of the real code, judged point by point on windows
+    lcalls = [gen_long(rng, i) for i in range(ctx.n(3, 18))]
+    louts = C.run_impl_parallel('c08_impl.py', [[lc] for lc in lcalls])
+    lterms, lown = [], []
+    lstats = {'splines': len(lcalls), 'points': 0, 'points_index_ge_100000': 0, 'max_intervals': 0}
+    for li, (lc, lo_) in enumerate(zip(lcalls, louts)):
+        lr = lo_['results'][0]
+        what = lr.get('err') or ('non-finite' if not lr.get('finite', True) else None) or \
+            ('bad-knots' if not (lr.get('knots_sorted') and lr.get('nknots') == lr.get('knots_expected') and lr.get('mask_all_true')
+                                 and lr.get('coeff_shape_ok')) else None)
+        if what:
+            sig = 'C08:long:impl=%s:property' % what
+            if sig not in seen:
+                seen.add(sig)
+                ctx.violation(sig, 'bspline with %d breakpoints, nord=%d: %s %s' % (lc['nbk'], lc['nord'], what, lr.get('msg', '')),
+                              {'kind': 'failing-input', 'call': lc, 'impl_result': {k_: v for k_, v in lr.items() if k_ not in ('points', 'indx_all', 'ranges')}}, True)
+            continue
+        if lr.get('args_mutated'):
+            ctx.violation('C08:value:argument-modified', 'value() modified its argument (long spline)', {'kind': 'failing-input', 'call': lc}, True)
+        lterms.append(long_term(lc, lr))
+        lown.append(li)
+        lstats['points'] += len(lr['points'])
+        lstats['points_index_ge_100000'] += sum(1 for p_ in lr['points'] if p_['l'] >= 100000)
+        lstats['max_intervals'] = max(lstats['max_intervals'], lr['nseg'])
+    lcc = C.CoqCases(ctx.work, HEADER, 'run_cases', shard=1)
+    lverd = lcc.run(lterms, tag='long') if lterms else []
+    for t, li, v in zip(lterms, lown, lverd):
+        if v == 0:
+            continue
+        lc, lr = lcalls[li], louts[li]['results'][0]
+        diag = lcc.show('diagnose %s' % t)[-300:]
+        small = {k_: v_ for k_, v_ in lr.items() if k_ not in ('points', 'indx_all', 'ranges')}
+        if v == 4:
+            sig = 'C08:harness:long:window'
+            if sig not in seen:
+                seen.add(sig)
+                ctx.violation(sig, 'long-spline case data inconsistent (a window does not bracket its point)',
+                              {'kind': 'broken-correspondence', 'item': 'C08.Model.run_case (CWin)', 'call': lc, 'diagnose': diag}, False)
+            continue
+        sig = 'C08:long:%s' % ('property' if v & 2 else 'model')
+        if sig in seen:
+            continue
+        seen.add(sig)
+        bad = []
+        if v & 2:
+            ctx.violation(sig, 'spline with %d intervals (nord=%d, %s breakpoints): value()/mask/basis contradict the Cox-de Boor spline of the '
+                          'knots and coefficients around the evaluation points (windows of 2k knots; BSpline/WindowProofs.eval1_window)' % (
+                              lr['nseg'], lc['nord'], lc['spacing']),
+                          {'kind': 'failing-input', 'call': lc, 'impl_result': small, 'verdict': v, 'diagnose': diag,
+                           'meaning': 'diagnose = [windows ok; model value/basis/interval; model action ranges; spec value/mask/basis; outside masks False]; '
+                                      'replay re-runs the call and lists the deviating points'}, True)
+        else:
+            ctx.violation(sig, 'long spline (%d intervals, nord=%d): model and implementation disagree; specification accepts the output' % (lr['nseg'], lc['nord']),
+                          {'kind': 'broken-correspondence', 'item': 'C08.Model.run_case (CWin)', 'call': lc, 'impl_result': small, 'verdict': v, 'diagnose': diag}, False)
+    npoints += lstats['points']
+    ctx.coverage['long_splines'] = dict(lstats, coq_eval_s=round(lcc.coq_seconds, 1))
     for i, (c, r) in enumerate(zip(calls, results)):
         key = '%s:k=%d:%s' % (c['opt']['kind'], c['nord'], r.get('err', 'ok'))
         dist[key] = dist.get(key, 0) + 1
@@ -253,7 +345,7 @@ def correspond(ctx, proof_ok=True):
     verdicts = cc.run(terms) if terms else []
     ctx.coverage.update({
         'evaluations': npoints,
-        'distinct_nontrivial': len(set(terms)),
+        'distinct_nontrivial': len(set(terms)) + len(set(lterms)),
         'rule': 'one evaluation = one evaluation point of one constructed bspline (value, mask, basis row, interval) '
                 'compared with the Coq model and with the Cox-de Boor specification; distinct = distinct case terms '
                 '(one per constructed knot vector)',
@@ -311,6 +403,24 @@ def replay(ctx, rep):
         return 2
     out = C.run_impl('c08_impl.py', [c])
     r = out['results'][0]
+    if c.get('long'):
+        print('call   : bspline(bkpt=<%d %s breakpoints>, nord=%d).value(<%d clusters of consecutive intervals>)' % (
+            c['nbk'], c['spacing'], c['nord'], len(c['clusters'])))
+        if 'err' in r:
+            print('impl   :', r)
+            return 0
+        import numpy as np
+        from scipy.interpolate import BSpline
+        nbad = 0
+        for p_ in r['points']:
+            k = c['nord']
+            ref = float(BSpline(np.array(p_['knots']), np.array(p_['coeff']), k - 1, extrapolate=True)(p_['x']))
+            if abs(ref - p_['y']) > 1e-8 * (1 + abs(ref)):
+                nbad += 1
+                if nbad <= 5:
+                    print('impl   : x=%r interval %d: value() = %r, spline of the surrounding knots/coefficients = %r' % (p_['x'], p_['l'], p_['y'], ref))
+        print('impl   : %d of %d points deviate' % (nbad, len(r['points'])))
+        return 0
     print('call   : bspline(x[%d], nord=%d, %s=%r, bkspread=%r)' % (
         len(c['xs']), c['nord'], c['opt']['kind'], c['opt']['value'], c['bkspread']))
     print('impl   :', {k: v for k, v in r.items() if k in ('err', 'msg', 'stage', 'bk', 'nc', 'finite')})
